@@ -6,34 +6,10 @@
 (* all strings of length <= 2 over the escape-relevant code points.  Laws of  *)
 (* the byte arithmetic (Inc/Dec inverse, Neg involutive, Mul10 against        *)
 (* repeated addition) are checked on the way; every state is a case.          *)
-EXTENDS Bytes, TLC, Json
+EXTENDS Lex, TLC, Json
 
 VARIABLES kind, v, cls
 vars == <<kind, v, cls>>
-Zero8 == <<0, 0, 0, 0, 0, 0, 0, 0>>
-One8 == <<0, 0, 0, 0, 0, 0, 0, 1>>
-RECURSIVE AddC(_, _, _, _)
-\* a + b + carry on big-endian byte arrays of equal length, position i from the right
-AddC(a, b, i, c) == IF i = 0 THEN <<>> ELSE LET s == a[i] + b[i] + c IN Append(AddC(a, b, i - 1, s \div 256), s % 256)
-Add8(a, b) == AddC(a, b, 8, 0)
-Inv8(a) == [i \in 1..8 |-> 255 - a[i]]
-Neg8(a) == Add8(Inv8(a), One8)
-Inc8(a) == Add8(a, One8)
-Dec8(a) == Add8(a, Inv8(Zero8))            \* + (-1)
-Dbl8(a) == Add8(a, a)
-Mul10(a) == LET a2 == Dbl8(a) a8 == Dbl8(Dbl8(a2)) IN Add8(a8, a2)
-RECURSIVE Pow10(_), Pow2(_)
-Pow10(k) == IF k = 0 THEN One8 ELSE Mul10(Pow10(k - 1))
-Pow2(k) == IF k = 0 THEN One8 ELSE Dbl8(Pow2(k - 1))
-Ints == UNION {{Pow10(k), Inc8(Pow10(k)), Dec8(Pow10(k)), Neg8(Pow10(k)), Neg8(Inc8(Pow10(k))), Neg8(Dec8(Pow10(k)))} : k \in 0..18}
-        \cup UNION {{Pow2(k), Inc8(Pow2(k)), Dec8(Pow2(k)), Neg8(Pow2(k)), Neg8(Inc8(Pow2(k))), Neg8(Dec8(Pow2(k)))} : k \in 0..63}
-\* double from sign, 11-bit exponent, and a mantissa pattern (52 bits as 7 bytes, top nibble in byte 2)
-Dbl(s, e, m) == <<s * 128 + e \div 16, (e % 16) * 16 + m[1]>> \o SubSeq(m, 2, 7)
-Mants == {<<0, 0, 0, 0, 0, 0, 0>>, <<0, 0, 0, 0, 0, 0, 1>>, <<8, 0, 0, 0, 0, 0, 0>>, <<15, 255, 255, 255, 255, 255, 255>>, <<9, 153, 153, 153, 153, 153, 154>>}
-Exps == {0, 1, 2, 1000, 1019, 1022, 1023, 1024, 1026, 1075, 1076, 2045, 2046}
-Doubles == {Dbl(s, e, m) : s \in {0, 1}, e \in Exps, m \in Mants}
-Alpha == {<<97>>, <<34>>, <<92>>, <<47>>, <<10>>, <<0>>, <<31>>, <<127>>, <<195, 169>>, <<240, 159, 152, 128>>, <<226, 128, 168>>}
-Strs == {<<>>} \cup Alpha \cup {a \o b : a \in Alpha, b \in Alpha}
 Init == \/ kind = "i64" /\ v \in Ints /\ cls = "boundary"
         \/ kind = "f64" /\ v \in Doubles /\ cls = "class"
         \/ kind = "str" /\ v \in Strs /\ cls = "short"
